@@ -674,3 +674,24 @@ Proof.
   - destruct (Q1 eq_refl) as [Qm Qr]. repeat split; auto.
   - repeat split; auto; constructor.
 Qed.
+
+(* ---- a boolean checker for the size conditions (for concrete examples) ----------- *)
+Definition hsizedb (h : headers) : bool :=
+  (lenN h + 2 <? two64) &&
+  forallb (fun nv => (lenN (fst nv) <? two64) && (lenN (join_comma (snd nv)) <? two64)) h.
+Definition i64b (z : Z) : bool := ((- Z.of_N two63 <=? z) && (z <? Z.of_N two63))%Z.
+Definition esizedb (e : exchange) : bool :=
+  (lenN (e_uri e) <? two64) && (lenN (e_method e) <? two64) && i64b (e_status e) &&
+  hsizedb (e_reqh e) && hsizedb (e_resph e).
+
+Lemma hsizedb_ok (h : headers) : hsizedb h = true -> hsized h.
+Proof.
+  unfold hsizedb, hsized. rewrite andb_true_iff, forallb_forall, Forall_forall.
+  intros [H1 H2]. split; [lia|]. intros nv Hin. specialize (H2 nv Hin). lia.
+Qed.
+Lemma esizedb_ok (e : exchange) : esizedb e = true -> esized e.
+Proof.
+  unfold esizedb, esized, i64b, i64. rewrite !andb_true_iff.
+  intros ((((H1 & H2) & (H3 & H4)) & H5) & H6).
+  repeat split; try lia; apply hsizedb_ok; assumption.
+Qed.
